@@ -81,15 +81,15 @@ def _check_main(run, P):
     c10.flag(run, P, "C06.flagrule")
 
     m = P.module(MOD)
-    _splice_and_pop(run, P, m)
-    _keep(run, P)
-    _lost(run, P)
-    _ifthenelse(run, P)
-    _merge(run, P)
-    _handlers(run, P)
-    _collapse_all(run, P)
-    _identity(run, P)
-    _flat(run, P)
+    run.do(_splice_and_pop, run, P, m)
+    run.do(_keep, run, P)
+    run.do(_lost, run, P)
+    run.do(_ifthenelse, run, P)
+    run.do(_merge, run, P)
+    run.do(_handlers, run, P)
+    run.do(_collapse_all, run, P)
+    run.do(_identity, run, P)
+    run.do(_flat, run, P)
 
 
 # {{{ deque rules
